@@ -142,7 +142,8 @@ def step_digest(app, obs_lists=None) -> dict:
     d["pointing"] = Numeric({int(i): (np.array(a.sensors.boresight, dtype=float), np.array([float(a.sensors.time_last_tasked)])) for i, a in sorted(app.sensor_agents.items())}, rtol=1e-9, atol=1e-12)
     # numeric component: compared with a rounding-level tolerance (the order of stacked observations
     # inside one filter update legitimately follows completion order and changes the last bits)
-    d["estimates"] = Estimates({int(i): (np.array(a.state_estimate, dtype=float), np.array(a.error_covariance, dtype=float)) for i, a in sorted(app.estimate_agents.items())})
+    d["estimates"] = Estimates({int(i): (np.array(a.state_estimate, dtype=float), np.array(a.error_covariance, dtype=float)) for i, a in sorted(app.estimate_agents.items())},
+                               prior={int(i): np.array(getattr(a.nominal_filter, "pred_p", a.error_covariance), dtype=float) for i, a in sorted(app.estimate_agents.items())})
     d["est_flags"] = {int(i): (bool(a.maneuver_detected), float(a.last_observed_at) if hasattr(a, "last_observed_at") and a.last_observed_at is not None else None)
                       for i, a in sorted(app.estimate_agents.items())}
     for eid, e in sorted(app.tasking_engines.items()):
@@ -198,8 +199,9 @@ class Estimates:
     observation changes P by tens of percent and x by a good fraction of sigma.
     """
 
-    def __init__(self, data):
+    def __init__(self, data, prior=None):
         self.data = data
+        self.prior = prior or {}   # the filter's predicted covariance of this step
 
     def __eq__(self, other):
         if not isinstance(other, Estimates) or self.data.keys() != other.data.keys():
@@ -215,7 +217,12 @@ class Estimates:
             sig = np.sqrt(np.maximum(np.abs(np.diag(p)), 0.0))
             if np.any(np.abs(x - x2) > 1e-3 * sig + 1e-12):
                 return False
-            if np.any(np.abs(p - p2) > 5e-2 * np.sqrt(np.outer(np.abs(np.diag(p)), np.abs(np.diag(p)))) + 1e-18):
+            # P+ = P- - K S K^T: when one update shrinks the covariance by many orders of magnitude the subtraction cancels, and the
+            # rounding error of the stacked update, cond(S)*eps*|P-|, can exceed P+ itself (measured: prior 0.2 km, posterior 2 cm,
+            # three sensors stacked: dP = 0.5 |P+| from the stacking order alone). The allowance is therefore anchored to the prior.
+            pm = self.prior.get(k)
+            floor = 1e-18 if pm is None or pm.shape != p.shape or not np.all(np.isfinite(pm)) else 1e-18 + 1e-6 * np.sqrt(np.outer(np.abs(np.diag(pm)), np.abs(np.diag(pm))))
+            if np.any(np.abs(p - p2) > 5e-2 * np.sqrt(np.outer(np.abs(np.diag(p)), np.abs(np.diag(p)))) + floor):
                 return False
         return True
 
@@ -224,6 +231,15 @@ class Estimates:
 
     def __hash__(self):
         return 0
+
+
+def maybe_sub_second_start(net, rng, p=0.1):
+    """With probability p move the scenario start between two seconds ("any start instant")."""
+    if rng.random() < p:
+        t = datetime.fromisoformat(net["start"]).replace(microsecond=rng.choice([500000, 250000, 750000, 123456, 999000]))
+        net["start"] = t.isoformat()
+        return True
+    return False
 
 
 def compare_runs(digests_a, digests_b):
